@@ -11,7 +11,7 @@ import (
 // the process (load is given scratch-relative names only).
 var soupTokens = []string{
 	".", "..", "...", ".a", ".b", ".c", ".x", ".[", "[", "]", "]?", "(", ")", "{", "}", ":", ",", "|", ";",
-	".a?", `."k y"`, ".[0]", ".[-1]", ".[1:]", ".[:2]", ".[-5:]", ".[1:-1]", ".[]", ".a[]", ".a[0]", ".a.b", ".[\"a\"]",
+	".a?", `."k y"`, ".[0]", ".[-1]", ".[1:]", ".[:2]", ".[-5:]", ".[1:-1]", ".[3:1]", ".[-1:1]", ".[2:-4]", ".[1:0]", ".[5:2]", ".[-1:-3]", ".[]", ".a[]", ".a[0]", ".a.b", ".[\"a\"]",
 	"+", "-", "*", "/", "%", "//", "==", "!=", "<", "<=", ">", ">=", "=", "|=", "+=", "-=", "*=", "*+", "*d", "*?", "*n", "*+d?n", "*=+", "=c", "|=c",
 	"and", "or", "not", "length", "keys", "key", "is_key", "has", "select", "map", "map_values", "filter", "pick", "omit",
 	"flatten", "flatten(1)", "flatten(0)", "reverse", "sort", "sort_by", "sort_keys", "unique", "unique_by", "group_by",
@@ -49,7 +49,7 @@ var unaryFns = []string{"length", "keys", "reverse", "sort", "unique", "flatten"
 	"to_yaml", "to_json", "@json", "to_xml", "to_props", "@csv", "@tsv", "@base64", "@base64d", "@uri", "@urid", "@sh",
 	"from_yaml", "from_json", "from_xml", "from_props", "from_csv", "from_tsv", "document_index", "file_index", "filename",
 	"line_comment", "head_comment", "foot_comment", "collect", "splitDoc", "to_unix", "from_unix", "tz(\"UTC\")", "is_key", "envsubst",
-	"shuffle | length", "..", "...", ".[]", ".[0]", ".[-1]", ".[1:]", ".[:-1]", ".[-3:]", ".[2:1]", ".a", ".b", ".a[]", ".x?", ".[\"a\",\"b\"]"}
+	"shuffle | length", "..", "...", ".[]", ".[0]", ".[-1]", ".[1:]", ".[:-1]", ".[-3:]", ".[2:1]", ".[3:1]", ".[-1:1]", ".[2:-4]", ".[1:0]", ".[-1:-2]", ".[4:2]", ".a", ".b", ".a[]", ".x?", ".[\"a\",\"b\"]"}
 
 var argFns = []string{"select", "map", "map_values", "filter", "sort_by", "group_by", "unique_by", "any_c", "all_c", "has",
 	"contains", "join", "split", "pick", "omit", "with_entries", "del", "delpaths", "test", "match", "capture", "error", "collect", "eval", "load_str"}
